@@ -126,12 +126,12 @@ private theorem runSettle_extendRound (c : Ctx) (aid : Nat) (a : Auction) :
 
 /-- … which is the dispatch of the model's `blockStep`: -/
 theorem tie_ExecuteStandByStatus (c : Ctx) (aid : Nat) (v : AView) (hv : c.s.views[aid]? = some v)
-    (hst : v.a.status = .standby) :
+    (hst : v.a.status = .standby) (hid : v.a.id = aid) :
     blockStep c aid = Go.runSettlePlan c aid (Gen.ExecuteStandByStatus v.a c.s.now) := by
   unfold blockStep ExecuteStandByStatus
   simp only [Ctx.view, hv, tie_ShouldAuctionStarted, bind, Except.bind, hst]
   by_cases h : v.a.startTime ≤ c.s.now <;>
-    simp [h, runSettlePlan, applySettle, Ctx.view, hv, bind, Except.bind, pure, Except.pure]
+    simp [h, hid, runSettlePlan, applySettle, Ctx.view, hv, bind, Except.bind, pure, Except.pure]
 
 theorem tie_ExecuteStartedStatus (c : Ctx) (aid : Nat) (v : AView) (hv : c.s.views[aid]? = some v)
     (hst : v.a.status = .started) (hne : v.a.endTimes ≠ []) :
@@ -213,11 +213,13 @@ private theorem settleBatch_tie (c : Ctx) (aid : Nat) (v : AView) (hv : c.s.view
 /-- **CloseBatchAuction**: the round limit, the "nothing to compare with" case and the
     anti-sniping rule `1 − Quo(curr, last) ≥ rate`, each followed by the same settling steps -/
 theorem tie_CloseBatchAuction (c : Ctx) (aid : Nat) (v : AView) (hv : c.s.views[aid]? = some v)
-    (hty : v.a.type = .batch) (mi : MInfo) (hmi : calcBatch v.a v.bids v.allowed = some mi) :
-    closeBatch c aid = Go.runSettlePlan c aid (Gen.CloseBatchAuction v.a v.matchedLen mi) := by
+    (hty : v.a.type = .batch) (mi : MInfo) (hmi : calcBatch v.a v.bids v.allowed = some mi) (hid : v.a.id = aid) :
+    closeBatch c aid = Go.runSettlePlan c aid (Gen.CloseBatchAuction v.a (rdMatchedLen c.s) mi) := by
   have hok : decide (v.a.type = AType.batch) = true := by simp [hty]
+  have hML : rdMatchedLen c.s (v.a.id : Int) = (v.matchedLen : Int) := by
+    simp [rdMatchedLen, hid, hv]
   unfold closeBatch CloseBatchAuction
-  simp only [view_of hv, hmi, hok, pure_bind, Bool.not_true, Bool.false_eq_true, if_false,
+  simp only [view_of hv, hmi, hok, hML, pure_bind, Bool.not_true, Bool.false_eq_true, if_false,
     List.nil_append, List.cons_append]
   by_cases h1 : v.a.maxExt + 1 = v.a.endTimes.length
   · have h1' : ((v.a.maxExt : Int) + 1 = (v.a.endTimes.length : Int)) := by omega
@@ -239,10 +241,11 @@ theorem tie_CloseBatchAuction (c : Ctx) (aid : Nat) (v : AView) (hv : c.s.views[
         rw [runSettle_calcBatch c aid v hv mi hmi, settleBatch_tie _ aid _ (setView_get hv)]
 
 /-- **ExtendRound** -/
-theorem tie_ExtendRound (c : Ctx) (aid : Nat) (v : AView) (hv : c.s.views[aid]? = some v) (hne : v.a.endTimes ≠ []) :
+theorem tie_ExtendRound (c : Ctx) (aid : Nat) (v : AView) (hv : c.s.views[aid]? = some v) (hne : v.a.endTimes ≠ [])
+    (hid : v.a.id = aid) :
     extendRound c aid = Go.runSettlePlan c aid (Gen.ExtendRound v.a c.s.params) := by
   unfold extendRound ExtendRound
-  simp [runSettlePlan, applySettle, Ctx.view, hv, bind, Except.bind, pure, Except.pure, index_last hne,
+  simp [hid, runSettlePlan, applySettle, Ctx.view, hv, bind, Except.bind, pure, Except.pure, index_last hne,
     Auction.lastEnd, Go.addDate]
 
 /-- **RefundRemainingSellingCoin** -/
